@@ -297,3 +297,32 @@ Proof.
   rewrite (trace_calls cs2 (mkFrame (f_ret_ip top) true (f_barrier top)) B iip f true) by reflexivity.
   reflexivity.
 Qed.
+
+(* one trace entry per active call: the trace is as long as the call stack is deep, whatever the call-site ips are --
+   in particular a function recursing d times through ONE call instruction gives d identical, adjacent frames *)
+Theorem trace_matches_call_stack : forall cs f,
+    exists t, fault_at (run_events (map ECall cs)) f = Uncaught t
+              /\ length t = S (length cs)
+              /\ (forall c d, cs = repeat c d -> t = f :: repeat c d).
+Proof.
+  intros cs f. exists (f :: rev cs). split; [apply trace_order|]. split.
+  - simpl. rewrite rev_length. reflexivity.
+  - intros c d ->. f_equal.
+    induction d as [|d IH]; simpl; [reflexivity|]. rewrite IH.
+    clear IH. induction d as [|d IH]; simpl; [reflexivity|]. rewrite <- IH. reflexivity.
+Qed.
+
+(* an `extend_trace` that drops a frame equal to the most recent entry (a "don't list a frame twice" guard) *)
+Fixpoint dedup_adjacent (t : list N) : list N :=
+  match t with
+  | a :: ((b :: _) as r) => if a =? b then dedup_adjacent r else a :: dedup_adjacent r
+  | _ => t
+  end.
+
+Theorem dedup_trace_refuted : exists cs f t,
+    fault_at (run_events (map ECall cs)) f = Uncaught t /\ dedup_adjacent t <> t
+    /\ (length (dedup_adjacent t) < S (length cs))%nat.
+Proof.
+  exists [30; 20; 20; 20], 10, [10; 20; 20; 20; 30]. split; [vm_compute; reflexivity|].
+  split; [vm_compute; discriminate | vm_compute; lia].
+Qed.
